@@ -204,12 +204,21 @@ func (r *renderer) junk() {
 	}
 }
 
-func (r *renderer) line(d int, text string) {
+func (r *renderer) line(d int, text string) { r.lineT(d, text, false) }
+
+// lineT: endsInText says that the line ends in literal text; a trailing comment is then
+// attached without a blank, because a blank before it would be trailing whitespace of the
+// text (which the lexer keeps in the TEXT token), not layout.
+func (r *renderer) lineT(d int, text string, endsInText bool) {
 	r.junk()
 	r.sb.WriteString(r.l.indent(d))
 	r.sb.WriteString(text)
 	if r.l.TrailingCm && r.l.rnd.Intn(3) == 0 {
-		r.sb.WriteString(" // trailing")
+		if endsInText {
+			r.sb.WriteString("// trailing")
+		} else {
+			r.sb.WriteString(" // trailing")
+		}
 	}
 	r.sb.WriteString(r.l.nl())
 }
@@ -290,14 +299,14 @@ func (r *renderer) stmt(s Stmt, d int) {
 	}
 	switch s.K {
 	case "line":
-		r.line(d, r.parts(s.Text)+r.tags(s.Tags))
+		r.lineT(d, r.parts(s.Text)+r.tags(s.Tags), len(s.Tags) == 0)
 	case "opts":
 		for _, o := range s.Opts {
 			t := "->" + sp() + r.parts(o.Text)
 			if o.Cond != nil && o.Cond.K != "none" {
 				t += " " + r.cmd("if"+sp()+l.expr(o.Cond))
 			}
-			r.line(d, t+r.tags(o.Tags))
+			r.lineT(d, t+r.tags(o.Tags), len(o.Tags) == 0 && (o.Cond == nil || o.Cond.K == "none"))
 			r.body(o.Body, d+1)
 		}
 	case "if":
@@ -348,7 +357,12 @@ func (r *renderer) stmt(s Stmt, d int) {
 		}
 		r.line(d, r.cmd(strings.Join(words, sp())))
 	case "call":
-		r.line(d, r.cmd("call"+sp()+l.expr(s.E)))
+		// the grammar wants a function call here, not an expression: no parentheses around it
+		saved := l.Parens
+		l.Parens = 0
+		v := l.expr(s.E)
+		l.Parens = saved
+		r.line(d, r.cmd("call"+sp()+v))
 	default:
 		r.line(d, fmt.Sprintf("<<unknown %s>>", s.K))
 	}
